@@ -291,7 +291,7 @@ def linearize_segment(events, sites):
         base['conc'] = 1
         tid = d['thr_id']
         hooks = d.get('hooks', [])
-        base['lockviol'] = [h['n'] for h in hooks if h['sh'] and not h['held']]
+        base['lockviol'] = [h['n'] for h in hooks if h['sh'] and not h['held'] and not h['n'].startswith('g_')]   # g_*: events of the generic binding, third field is data
         tickets = d.get('tickets', [])
         ph = d.get('ph', 'thr')
         def key_for(t):
